@@ -1,12 +1,13 @@
 package props
 
 import (
-	"io"
 	"bytes"
 	"crypto"
 	"encoding/hex"
 	"fmt"
+	"io"
 	"reflect"
+	"strings"
 	"sync"
 	"testing"
 
@@ -71,17 +72,20 @@ func fingerprint(e *openpgp.Entity) string {
 type SigCase struct {
 	Then        string `json:"then,omitempty"`
 	ThenKeyring []byte `json:"thenKeyring,omitempty"`
-	Raw      []byte `json:"raw"`
-	Keyring  []byte `json:"keyring"` // serialised public keys handed to CheckDebsig
-	Role     string `json:"role"`    // role asked for
-	SignerFP string `json:"signerFp"`
-	Exp      Exp    `json:"exp"`    // control model of the SIGNED package
-	Expect   string `json:"expect"` // accept | reject | sigfault
-	Fault    string `json:"fault"`
-	Reps     int    `json:"reps"`
+	Raw         []byte `json:"raw"`
+	Keyring     []byte `json:"keyring"` // serialised public keys handed to CheckDebsig
+	Role        string `json:"role"`    // role asked for
+	SignerFP    string `json:"signerFp"`
+	Exp         Exp    `json:"exp"`    // control model of the SIGNED package
+	Expect      string `json:"expect"` // accept | reject | sigfault
+	Fault       string `json:"fault"`
+	Reps        int    `json:"reps"`
 	// Files, when set (untampered packages), is the payload of the signed package: after a
 	// successful check the handle must still deliver it, and a repeated check must agree
 	Files []TarFile `json:"files,omitempty"`
+	// Sibling, when set: another signed package (same layout and codecs, different payload) that is
+	// loaded before and after this one and stays open: what the handles deliver must not mix
+	Sibling []byte `json:"sibling,omitempty"`
 }
 
 func checkSigCase(c SigCase, r *Recorder) error {
@@ -99,7 +103,19 @@ func checkSigCase(c SigCase, r *Recorder) error {
 		reps = 1
 	}
 	for k := 0; k < reps; k++ {
+		var sib1 *deb.Deb
+		if c.Sibling != nil {
+			sib1, _ = deb.Load(bytes.NewReader(c.Sibling), "sibling.deb")
+		}
 		d, lerr := deb.Load(bytes.NewReader(c.Raw), "signed.deb")
+		if c.Sibling != nil {
+			if sib2, err := deb.Load(bytes.NewReader(c.Sibling), "sibling.deb"); err == nil {
+				defer sib2.Close()
+			}
+			if sib1 != nil {
+				defer sib1.Close()
+			}
+		}
 		var signer *openpgp.Entity
 		var verr error
 		if lerr == nil {
@@ -238,8 +254,8 @@ type SignedBase struct {
 
 func genSignedBase(t *rapid.T) SignedBase {
 	m := genSmallDebModel(t)
-	m.CtlCodec = rapid.SampledFrom([]string{"", "gz"}).Draw(t, "cc")
-	m.DataCodec = rapid.SampledFrom([]string{"", "gz"}).Draw(t, "dc")
+	m.CtlCodec = rapid.SampledFrom([]string{"", "gz", "zst"}).Draw(t, "cc")
+	m.DataCodec = rapid.SampledFrom([]string{"", "gz", "zst"}).Draw(t, "dc")
 	if len(m.DataFiles) > 3 {
 		m.DataFiles = m.DataFiles[:3]
 	}
@@ -253,7 +269,7 @@ func genSignedBase(t *rapid.T) SignedBase {
 
 var specC16 = Register(&Spec[SigCase]{
 	Prop: "C16", Name: "debsig",
-	Rule: "fault enumeration over generated debsig-signed packages (C14 models with stored/gzip members, role in {origin, maint, archive}, RSA signer from a per-process pool, detached binary signature over debian-binary|control|data in '_gpg<role>'): the untampered package with the signer in the keyring (accept - and after the check the handle still delivers the signed payload, and a repeated check agrees); EVERY single-byte XOR 0x01 inside the three signed members (reject); a decoy control.*/data.* member with a different extension (a stored tar carrying 'Package: evil', or a copy) and a same-name duplicate with changed content inserted at EVERY member position, each loaded 64 times (reject); a role that is not present, an unrelated keyring, an empty keyring (reject); a second CheckDebsig on the same handle with an unrelated or empty keyring after a successful first one (the second must fail); EVERY single-byte XOR inside the signature member (must fail or still verify the unmodified content); the signature member replaced by its ASCII-armored form, alone (either outcome), with a foreign/empty keyring and with flipped bytes in each signed member (reject). Oracle: reject => Load or CheckDebsig fails on every repetition; always: if both succeed, the control data exposed equals the signed package's model and the signer is the signing entity. Non-trivial: every faulted case; distinct by (bytes, role, keyring).",
+	Rule:  "fault enumeration over generated debsig-signed packages (C14 models with stored/gzip/zstd members, role in {origin, maint, archive}, RSA signer from a per-process pool, detached binary signature over debian-binary|control|data in '_gpg<role>'): the untampered package with the signer in the keyring (accept - and after the check the handle still delivers the signed payload, and a repeated check agrees; the same with another signed package of the same layout loaded before and after it and left open); EVERY single-byte XOR 0x01 inside the three signed members (reject); a decoy control.*/data.* member with a different extension (a stored tar carrying 'Package: evil', or a copy) and a same-name duplicate with changed content inserted at EVERY member position, each loaded 64 times (reject); a role that is not present, an unrelated keyring, an empty keyring (reject); a second CheckDebsig on the same handle with an unrelated or empty keyring after a successful first one (the second must fail); EVERY single-byte XOR inside the signature member (must fail or still verify the unmodified content); the signature member replaced by its ASCII-armored form, alone (either outcome), with a foreign/empty keyring and with flipped bytes in each signed member (reject). Oracle: reject => Load or CheckDebsig fails on every repetition; always: if both succeed, the control data exposed equals the signed package's model and the signer is the signing entity. Non-trivial: every faulted case; distinct by (bytes, role, keyring).",
 	Check: checkSigCase,
 })
 
@@ -275,6 +291,26 @@ func enumerateSigFaults(b SignedBase, yield func(SigCase) bool) bool {
 	acc.Files = append([]TarFile{}, b.M.DataFiles...)
 	if !yield(acc) {
 		return false
+	}
+	// the same with a sibling package open on either side
+	sibM := b.M
+	sibM.DataFiles = nil
+	for _, f := range b.M.DataFiles {
+		g := f
+		if g.Type == "reg" {
+			g.Content = append([]byte("SIBLING PAYLOAD "), g.Content...)
+		}
+		g.Name = strings.Replace(g.Name, "./", "./sib-", 1)
+		sibM.DataFiles = append(sibM.DataFiles, g)
+	}
+	sibM.DataFiles = append(sibM.DataFiles, TarFile{Name: "./sibling-only", Type: "reg", Content: []byte("x")})
+	if sibRaw, _, err := buildSigned(sibM, other, b.Role); err == nil {
+		acc2 := mk(raw, "accept", "none-with-sibling-open", 1)
+		acc2.Files = append([]TarFile{}, b.M.DataFiles...)
+		acc2.Sibling = sibRaw
+		if !yield(acc2) {
+			return false
+		}
 	}
 	// signer among others
 	c := mk(raw, "accept", "none-signer-among-others", 1)
